@@ -240,6 +240,41 @@ def run(tier):
         r['_cost'] = (r['n'] + 1) * (len(r['stabs']) + 1)
         meta[r['id']] = ('library', lab)
         recs.append(r)
+    # the same views exported from objects WITH A HISTORY: every lazily cached
+    # property is read on the undeformed object (and under another
+    # deformation) before the deformation under test is applied
+    hist_subjects = []
+    for name in codes.CLASSES:
+        vs = codes.deformation_variants(name)[1:]
+        if not vs:
+            continue
+        ms = 3 if codes.dimension(name) == 2 else 2
+        ss = codes.sizes(name, ms, max_n=120) or codes.sizes(name, 4, max_n=200)
+        for size in dict.fromkeys([ss[0], ss[-1]]):
+            for (dname, kw) in dict.fromkeys((d, tuple(sorted(k.items()))) for d, k in vs):
+                hist_subjects.append((name, size, dname, dict(kw), vs))
+    for name, size, dname, kw, vs in hist_subjects:
+        code = codes.build(name, size)
+        for prop in ('stabilizer_matrix', 'x_indices', 'z_indices', 'is_css', 'logicals_x',
+                     'logicals_z', 'qubit_index', 'stabilizer_index', 'd', 'stabilizer_types'):
+            getattr(code, prop)
+        try:
+            code.Hx, code.Hz
+        except ValueError:
+            pass
+        other = vs[-1] if vs[-1] != (dname, kw) else vs[0]
+        code.deform(other[0], **other[1])
+        code.is_css, code.stabilizer_matrix
+        code.deform(dname, **kw)
+        r = project_c02(code, rng)
+        r['id'] = len(recs)
+        r['_cost'] = (r['n'] + 1) * (len(r['stabs']) + 1)
+        meta[r['id']] = ('library', codes.label(name, size, dname, kw) + '#after-history')
+        # the reference for H itself is a fresh object deformed once
+        fresh = codes.build(name, size, dname, kw)
+        r['twin'] = [{'a': r['stabs'], 'b': codes.rows_to_ops(fresh.stabilizer_matrix, fresh.n)},
+                     {'a': r['is_css'], 'b': bool(fresh.is_css)}]
+        recs.append(r)
     n_lib = len(recs)
 
     # (c) hash-seed twins: attach child exports to dedicated records
